@@ -18,6 +18,18 @@ CLAIMED = {
          "Theorems in Props/C15.v: the scan of encode_file fs returns the specified read of every FAB in order and stops; iterating a well-formed level yields a permutation of the per-box reads for every layout; iter(selection) = indexing interface. Implementation iterated under identity/reverse/random/rotated task orders of a controlled pool and compared with the model sequence and the multiset oracle.",
          "multiprocessing.imap ordering guarantee is modelled by the controlled pool, not verified; np.unique = sorted dedup.",
          "DESIGN.md section 3 C15"),
+ 'C03': ("Coq proof (validator completeness on every well-formed plotfile image for the 10 option sets outside the binary-data branch; refutation for the other 6) + exhaustive option-set correspondence",
+         "Props/C03.v: taste_good o limit (pf_disk pf) = true for every wf_plotfile, every layout and admissible limit when the binary-data branch is not reached; the branch rejects everything (known finding, KNOWN_FINDINGS.txt key binary-data-branch). All 16 option sets x limits x {fail, nofail} are run on every generated plotfile and compared with the model.",
+         "box-coordinate check exercised on the implementation only; os.listdir; text model restrictions of C02.",
+         "DESIGN.md section 3 C03"),
+ 'C04': ("Coq proof (validator soundness over arbitrary directory contents: accepted implies headers readable at recorded offsets and files exactly tiled) + corruption-stream correspondence with independent oracle",
+         "Props/C04.v: good implies every named file exists, every recorded (file, offset) yields a header naming the level header's index range and field count, every file is exactly a FAB sequence for its boxes; an accepted file extended by any bytes is rejected. 17 corruption operators applied singly and in pairs; implementation verdict (both modes) vs model vs independent consistency oracle.",
+         "malformed stream is ASCII-token structured; box-bound corruptions checked on the implementation only (float arithmetic not modelled).",
+         "DESIGN.md section 3 C04"),
+ 'C20': ("Coq proof (accepted file is tiled; a box recorded at a tile start whose header check passed reads back as that tile with the declared shape) + read-back of every accepted damaged image",
+         "Props/C20.v with the explicit proviso br_off = tile start; harness reads every box of every image the validator accepts (28% of the generated corrupted/edited images) and compares with the FAB whose header names the index range.",
+         "offsets pointing at header-shaped text embedded in payload are outside the generated stream and outside the theorem (stated proviso).",
+         "DESIGN.md section 3 C20"),
 }
 PENDING_REASON = "check not built yet in this round (model and theorems planned in DESIGN.md section 3); not claimed until its check runs"
 
